@@ -9,12 +9,12 @@ Local Open Scope Z_scope.
 
 (* one block of the modelled begin/end-block steps (gov quorum of every due proposal / poll, staking
    validator-set updates, spending dynamic rates) completes and re-establishes the invariant ... *)
-Theorem C06_blocks_never_panic : forall now w, world_inv w -> exists w', end_block now w = Ok w' /\ world_inv w'.
+Theorem C06_blocks_never_panic : forall g now w, world_inv w -> exists w', end_block g now w = Ok w' /\ world_inv w'.
 Proof. exact blocks_never_panic. Qed.
 Print Assumptions C06_blocks_never_panic.
 
 (* ... but the invariant is NOT preserved by what users can do: the statement without it is false *)
-Theorem C06_blocks_never_panic_refuted : exists now w, v_inv (w_val w) = true /\ end_block now w = Panic "div-by-zero".
+Theorem C06_blocks_never_panic_refuted : exists now w, v_inv (w_val w) = true /\ end_block false now w = Panic "div-by-zero".
 Proof. exact blocks_never_panic_refuted. Qed.
 Print Assumptions C06_blocks_never_panic_refuted.
 
@@ -44,20 +44,33 @@ Print Assumptions C06_gov_dynamic_quorum_refuted.
 (* ---------------- spending end-blocker *)
 (* every history of GUARDED operations runs every end-blocker to completion (the guard is what the
    proposed fix enforces; 2^40 operations: only the 315-bit Dec overflow is excluded by the bound) *)
-Theorem C06_spend_history_never_panics_partial : forall ops,
-  forallb sop_ok ops = true -> Z.of_nat (List.length ops) <= 2 ^ 40 -> exists ps, srun ops = Ok ps.
+Theorem C06_spend_history_never_panics_partial : forall g ops,
+  forallb sop_ok ops = true -> Z.of_nat (List.length ops) <= 2 ^ 40 -> exists ps, srun g ops = Ok ps.
 Proof. exact spend_history_never_panics. Qed.
 Print Assumptions C06_spend_history_never_panics_partial.
 
-Theorem C06_spend_period_zero_refuted : exists ops, srun ops = Panic "div-by-zero".
+Theorem C06_spend_period_zero_refuted : exists ops, srun false ops = Panic "div-by-zero".
 Proof. exact spend_period_zero_refuted. Qed.
 Print Assumptions C06_spend_period_zero_refuted.
-Theorem C06_spend_period_wraps_refuted : exists ops, srun ops = Panic "neg-deccoin".
+Theorem C06_spend_period_wraps_refuted : exists ops, srun false ops = Panic "neg-deccoin".
 Proof. exact spend_period_wraps_refuted. Qed.
 Print Assumptions C06_spend_period_wraps_refuted.
-Theorem C06_spend_negative_weight_refuted : exists ops, srun ops = Panic "neg-deccoin".
+Theorem C06_spend_negative_weight_refuted : exists ops, srun false ops = Panic "neg-deccoin".
 Proof. exact spend_negative_weight_refuted. Qed.
 Print Assumptions C06_spend_negative_weight_refuted.
+
+(* with the guard of fixes/C06-spending-endblock-denominator.patch (flag regenerated from the tree:
+   Gen.PanicSites.spend_endblock_guarded) the end-blocker completes on EVERY stored pool list *)
+Theorem C06_spend_endblock_guarded_never_panics : forall now ps, forallb pool_bounded ps = true ->
+  is_panic (spend_endblock true now ps) = false.
+Proof. exact spend_endblock_guarded_never_panics. Qed.
+Print Assumptions C06_spend_endblock_guarded_never_panics.
+Theorem C06_spend_refuted_histories_fixed_by_guard :
+  is_ok (srun true [SCreate true 0 100; SRegister 0 PREC; SDeposit 0 1000; SEnd 105]) = true /\
+  is_ok (srun true [SCreate true (two64 - 1) 100; SRegister 0 PREC; SDeposit 0 1000; SEnd 105]) = true /\
+  is_ok (srun true [SCreate true 1 100; SRegister 0 (- PREC); SDeposit 0 1000; SEnd 105]) = true.
+Proof. exact spend_refuted_histories_fixed_by_guard. Qed.
+Print Assumptions C06_spend_refuted_histories_fixed_by_guard.
 
 (* ---------------- proposal enactment *)
 Theorem C06_input_only_panics_filtered : forall {S} (h : S -> outcome S),
@@ -423,12 +436,21 @@ Example C06_world_inv_nonvacuous : exists w, world_inv w /\ w_pools w <> [] /\ w
 Proof.
   exists (mkW [(330000000000000000, mkG [1; 2] [2])] (mkV [7; 8] [8] []) [mkSpool true 60 100 (3 * PREC) [100000]]).
   split; [|split; discriminate].
-  repeat split; try (repeat constructor; simpl; intuition lia); try (vm_compute; congruence).
-  - intros x [<-|[]]. right. left. reflexivity.
+  split; [|split].
+  - constructor; [|constructor]. cbn [fst snd g_holders g_votes]. split; [split; vm_compute; discriminate|]. split.
+    + split; [|split].
+      * constructor; [intros [H|[]]; discriminate|]. constructor; [intros []|constructor].
+      * constructor; [intros []|constructor].
+      * intros x [<-|[]]. right. left. reflexivity.
+    + vm_compute. reflexivity.
+  - reflexivity.
+  - constructor; [|constructor]. unfold psafe; cbn [sp_dyn sp_period sp_weight sp_bals].
+    split; [intros _; split; vm_compute; reflexivity|]. split; [split; vm_compute; discriminate|].
+    constructor; [|constructor]. split; [vm_compute; discriminate|vm_compute; reflexivity].
 Qed.
 Example C06_guarded_history_nonvacuous :
   forallb sop_ok [SCreate true 60 100; SRegister 0 PREC; SDeposit 0 100000; SEnd 200] = true /\
-  srun [SCreate true 60 100; SRegister 0 PREC; SDeposit 0 100000; SEnd 200] = Ok [mkSpool true 60 200 PREC [100000]].
+  srun false [SCreate true 60 100; SRegister 0 PREC; SDeposit 0 100000; SEnd 200] = Ok [mkSpool true 60 200 PREC [100000]].
 Proof. split; reflexivity. Qed.
 Example C06_gov_inv_nonvacuous : exists ops s, g_inv s /\ (forall o, In o ops -> is_revoke o = false) /\
   List.length (g_votes (grun ops s)) = 2%nat.
